@@ -21,7 +21,7 @@
 //!   all literal weights; expected utility: the dependency-restricted sum (recursion over the
 //!   order, branching only on variables the restricted function depends on, = unsmoothed count of
 //!   its ROBDD, what tests/test.rs compares with), for bb multiplied by the decision weights.
-use rsdd::repr::{BddPtr, PartialModel, VarLabel, WmcParams};
+use rsdd::repr::{BddPtr, DDNNFPtr, PartialModel, VarLabel, WmcParams};
 use rsdd::util::semirings::{ExpectedUtility, RealSemiring};
 use rsdd_verif_harness::bddprog::*;
 use rsdd_verif_harness::*;
@@ -38,12 +38,26 @@ fn level_of(prog: &Prog, v: usize) -> usize {
 }
 
 pub fn gen(rng: &mut Rng, idx: usize, n: usize, thorough: bool) -> String {
-    let o = GenOpts { max_vars: if thorough { 8 } else { 6 }, max_ops: if thorough { 36 } else { 18 }, new_vars: true, small_tables: false };
+    let o = GenOpts { max_vars: if thorough { 9 } else { 7 }, max_ops: if thorough { 40 } else { 24 }, new_vars: true, small_tables: false };
     let p = gen_prog(rng, idx, n, &o);
     let prog = parse(&p);
     let total = prog.total_vars();
     let npool = prog.ops.len();
-    let target = if rng.chance(3, 4) { npool - 1 } else { rng.below(npool as u64) as usize };
+    // target: usually a pool entry whose function depends on many variables (found by running the
+    // program), sometimes any entry (constants, literals)
+    let supports: Vec<Vec<usize>> = {
+        let b = AnyBuilder::new(&prog);
+        let mut dummy = Stats::default();
+        let pool = exec(&b, &prog, &mut dummy);
+        pool.iter().map(|f| { let t = table_of(*f, total); (0..total).filter(|v| (0..(1usize << total)).any(|a| t[a] != t[a ^ (1 << v)])).collect() }).collect()
+    };
+    let sizes: Vec<usize> = supports.iter().map(|s| s.len()).collect();
+    let best = *sizes.iter().max().unwrap();
+    let target = match rng.below(8) {
+        0 => rng.below(npool as u64) as usize,
+        1 | 2 => { let c: Vec<usize> = (0..npool).filter(|i| sizes[*i] > 0).collect(); if c.is_empty() { npool - 1 } else { *rng.pick(&c) } }
+        _ => { let c: Vec<usize> = (0..npool).filter(|i| sizes[*i] == best).collect(); *rng.pick(&c) }
+    };
     // query variables: empty, all, or a random selection in random order (may be ignored by the function)
     let maxq = if thorough { 5 } else { 4 };
     let k = match rng.below(10) {
@@ -52,7 +66,12 @@ pub fn gen(rng: &mut Rng, idx: usize, n: usize, thorough: bool) -> String {
         _ => rng.range(1, total.min(maxq)),
     };
     let mut q = rng.perm(total);
+    if rng.chance(2, 3) {
+        // prefer variables the function depends on
+        q.sort_by_key(|v| !supports[target].contains(v));
+    }
     q.truncate(k);
+    rng.shuffle(&mut q);
     if rng.chance(1, 4) {
         q.sort();
     }
